@@ -240,6 +240,10 @@ def cbmc_cmd(ob, binary, backend, witness_prop=None, witness=False):
     if d.get("unwindset"):
         cmd += ["--unwindset", ",".join(d["unwindset"])]
     cmd += ["--object-bits", str(d.get("object_bits", 10))]
+    if "--max-field-sensitivity-array-size" not in d.get("cbmc", []):
+        # cbmc's default (64) turns every read of a larger buffer (DER outputs, records) into a symbolic value even when
+        # the bytes are concrete, which makes lengths parsed back from such buffers symbolic (measured: OOM -> 25 s)
+        cmd += ["--max-field-sensitivity-array-size", str(d.get("field_sens", 200))]
     cmd += d.get("cbmc", [])
     cmd += BACKENDS[backend]
     if witness_prop:
@@ -451,7 +455,7 @@ def load_known_findings():
     return kf
 
 
-def run_property(prop, obligations, tier, note="", level="other", assumptions=(), trusted=()):
+def run_property(prop, obligations, tier, note="", level="other", assumptions=(), trusted=(), pre_hook=None):
     """Runs all obligations of the property for the tier; prints the contract lines; writes evidence."""
     t0 = time.time()
     seed = int(os.environ.get("VERIF_SEED", "0") or 0)
@@ -479,6 +483,18 @@ def run_property(prop, obligations, tier, note="", level="other", assumptions=()
             recs.append(f.result())
     violations = 0
     lines = []
+    hook_ev = None
+    if pre_hook:
+        hr = pre_hook()
+        hook_ev = hr.get("evidence")
+        if hr.get("violations"):
+            os.makedirs(logdir, exist_ok=True)
+            hp = os.path.join(logdir, prop + ".prehook.txt")
+            open(hp, "w").write("\n".join(hr["violations"]) + "\n")
+            for v in hr["violations"]:
+                violations += 1
+                lines.append("VIOLATION property=%s replay=%s" % (prop, hp))
+                lines.append("  " + v)
     for ob, rec in zip(obs, recs):
         exp = ob.d.get("expect", "hold")
         if exp == "fail":
@@ -530,7 +546,7 @@ def run_property(prop, obligations, tier, note="", level="other", assumptions=()
             "checker_cmd": "cbmc 6.11 (see per-obligation cmd)",
             "trusted_base": list(trusted) or ["cbmc 6.11 front end and SAT/SMT back ends", "goto-cc",
                                               "the models/stubs listed per obligation"],
-            "functions_encoded": fns, "solver_wall_s_total": solver_time,
+            "functions_encoded": fns, "solver_wall_s_total": solver_time, "auxiliary": hook_ev,
             "samples": recs,
         },
         "assumptions": list(assumptions),
